@@ -395,13 +395,19 @@ def load_model(model_folder: str, model_name: str, compiler_options: Dict[str, s
 
         for key in variables_with_metadata:
             m = db[key + "__metadata_dependent"]
+            row = 0
             for i, d in enumerate(db[key]):
                 variable = variable_dict[d["name"]]
+                # The metadata matrices have one row per element, so an array
+                # variable takes up as many rows as it has elements.
+                n_rows = d["shape"][0] * d["shape"][1]
+                rows = row if n_rows == 1 else slice(row, row + n_rows)
+                row += n_rows
                 for j, tmp in enumerate(CASADI_ATTRIBUTES):
                     if m[i, j] == _DepMeta.MX_DEPENDENT:
-                        setattr(variable, tmp, metadata[key][i, j])
+                        setattr(variable, tmp, metadata[key][rows, j])
                     elif m[i, j] == _DepMeta.MX_INDEPENDENT:
-                        setattr(variable, tmp, ca.MX(independent_metadata[key][i, j]))
+                        setattr(variable, tmp, ca.MX(independent_metadata[key][rows, j]))
                     else:
                         # Already handled as part of Variable dict. That way
                         # we also do not have to worry about making sure the
